@@ -44,41 +44,114 @@ package compiler
 //@   property C04
 //@   requires kind: def.Kind == ast.KindConstantRef
 //
-//@ func (*Visitor).VisitArray
-//@   property C04
-//@   requires kind: def.Kind == ast.KindArray
-//
-//@ func (*Visitor).VisitMap
-//@   property C04
-//@   requires kind: def.Kind == ast.KindMap
-//
-//@ func (*Visitor).VisitStruct
-//@   property C04
-//@   requires kind: def.Kind == ast.KindStruct
-//
-//@ func (*Visitor).VisitDisjunction
-//@   property C04
-//@   requires kind: def.Kind == ast.KindDisjunction
-//
-//@ func (*Visitor).VisitIntersection
-//@   property C04
-//@   requires kind: def.Kind == ast.KindIntersection
-//
+// The shared Visitor under contract (C05, C06, C15 rely on it; C04 on the kind preconditions).
+// Its callbacks have unknown effects, so the protocol is stated over ghost call traces:
+//   returned("F", args.., results..)   a call of the traced method F with these arguments completed with these results
+//   dynreturned(fn, args.., results..) the same for a call through a callback value
+//   lastres("F", n)                    result n of the most recent completed call of F
+// For every kind: with a callback registered the visitor hands the type to the callback and returns
+// exactly what it returned; without one it visits each nested type (at-call obligations: the argument is
+// the nested type / the i-th field / the i-th branch), stores what came back in its place (loop
+// invariants over lastres) and returns the type otherwise unchanged; leaves come back untouched.
 //@ func (*Visitor).VisitEnum
-//@   property C04
+//@   property C04 C05 C06 C15
+//@   traced
 //@   requires kind: def.Kind == ast.KindEnum
+//@   ensures  callback: old(visitor.OnEnum) != nil ==> dynreturned(old(visitor.OnEnum), visitor, schema, def, result.0, result.1)
+//@   ensures  leaf: old(visitor.OnEnum) == nil ==> result.0 == def && result.1 == nil
 //
 //@ func (*Visitor).VisitScalar
-//@   property C04
+//@   property C04 C05 C06 C15
+//@   traced
 //@   requires kind: def.Kind == ast.KindScalar
+//@   ensures  callback: old(visitor.OnScalar) != nil ==> dynreturned(old(visitor.OnScalar), visitor, schema, def, result.0, result.1)
+//@   ensures  leaf: old(visitor.OnScalar) == nil ==> result.0 == def && result.1 == nil
 //
 //@ func (*Visitor).VisitRef
-//@   property C04
+//@   property C04 C05 C06 C15
+//@   traced
 //@   requires kind: def.Kind == ast.KindRef
+//@   ensures  callback: old(visitor.OnRef) != nil ==> dynreturned(old(visitor.OnRef), visitor, schema, def, result.0, result.1)
+//@   ensures  leaf: old(visitor.OnRef) == nil ==> result.0 == def && result.1 == nil
 //
 //@ func (*Visitor).VisitConsantRef
-//@   property C04
+//@   property C04 C05 C06 C15
+//@   traced
 //@   requires kind: def.Kind == ast.KindConstantRef
+//@   ensures  callback: old(visitor.OnConstantRef) != nil ==> dynreturned(old(visitor.OnConstantRef), visitor, schema, def, result.0, result.1)
+//@   ensures  leaf: old(visitor.OnConstantRef) == nil ==> result.0 == def && result.1 == nil
+//
+//@ func (*Visitor).VisitArray
+//@   property C04 C05 C06 C15
+//@   traced
+//@   requires kind: def.Kind == ast.KindArray
+//@   at-call "compiler.(*Visitor).VisitType" element: $arg0 == visitor && $arg1 == schema && $arg2 == old(def.Array.ValueType)
+//@   ensures  callback: old(visitor.OnArray) != nil ==> dynreturned(old(visitor.OnArray), visitor, schema, def, result.0, result.1)
+//@   ensures  descended: old(visitor.OnArray) == nil && result.1 == nil ==> result.0 == def && returned("compiler.(*Visitor).VisitType", visitor, schema, old(def.Array.ValueType), def.Array.ValueType, result.1)
+//
+//@ func (*Visitor).VisitMap
+//@   property C04 C05 C06 C15
+//@   traced
+//@   requires kind: def.Kind == ast.KindMap
+//@   at-call "compiler.(*Visitor).VisitType" element: $arg0 == visitor && $arg1 == schema && $arg2 == old(def.Map.ValueType)
+//@   ensures  callback: old(visitor.OnMap) != nil ==> dynreturned(old(visitor.OnMap), visitor, schema, def, result.0, result.1)
+//@   ensures  descended: old(visitor.OnMap) == nil && result.1 == nil ==> result.0 == def && returned("compiler.(*Visitor).VisitType", visitor, schema, old(def.Map.ValueType), def.Map.ValueType, result.1)
+//
+//@ func (*Visitor).VisitStruct
+//@   property C04 C05 C06 C15
+//@   traced
+//@   requires kind: def.Kind == ast.KindStruct
+//@   at-call "compiler.(*Visitor).VisitStructField" field: $arg0 == visitor && $arg1 == schema && $arg2 == old(def.Struct.Fields)[$i + 1]
+//@   at-call "compiler.(*Visitor).VisitStructField" let slot := def.Struct.Fields
+//@   ensures  callback: old(visitor.OnStruct) != nil ==> dynreturned(old(visitor.OnStruct), visitor, schema, def, result.0, result.1)
+//@   ensures  descended: old(visitor.OnStruct) == nil && result.1 == nil ==> result.0 == def && ncalls("compiler.(*Visitor).VisitStructField") >= old(ncalls("compiler.(*Visitor).VisitStructField")) + old(len(def.Struct.Fields))
+//@   loop 0:
+//@     invariant nocb: old(visitor.OnStruct) == nil
+//@     invariant counted: ncalls("compiler.(*Visitor).VisitStructField") >= old(ncalls("compiler.(*Visitor).VisitStructField")) + $i + 1
+//@     invariant stored: $i >= 0 ==> $slot[$i] == lastres("compiler.(*Visitor).VisitStructField", 0)
+//
+//@ func (*Visitor).VisitDisjunction
+//@   property C04 C05 C06 C15
+//@   traced
+//@   requires kind: def.Kind == ast.KindDisjunction
+//@   at-call "compiler.(*Visitor).VisitType" branch: $arg0 == visitor && $arg1 == schema && $arg2 == old(def.Disjunction.Branches)[$i + 1]
+//@   at-call "compiler.(*Visitor).VisitType" let slot := def.Disjunction.Branches
+//@   ensures  callback: old(visitor.OnDisjunction) != nil ==> dynreturned(old(visitor.OnDisjunction), visitor, schema, def, result.0, result.1)
+//@   ensures  descended: old(visitor.OnDisjunction) == nil && result.1 == nil ==> result.0 == def && ncalls("compiler.(*Visitor).VisitType") >= old(ncalls("compiler.(*Visitor).VisitType")) + old(len(def.Disjunction.Branches))
+//@   loop 0:
+//@     invariant nocb: old(visitor.OnDisjunction) == nil
+//@     invariant counted: ncalls("compiler.(*Visitor).VisitType") >= old(ncalls("compiler.(*Visitor).VisitType")) + $i + 1
+//@     invariant stored: $i >= 0 ==> $slot[$i] == lastres("compiler.(*Visitor).VisitType", 0)
+//
+//@ func (*Visitor).VisitIntersection
+//@   property C04 C05 C06 C15
+//@   traced
+//@   requires kind: def.Kind == ast.KindIntersection
+//@   at-call "compiler.(*Visitor).VisitType" branch: $arg0 == visitor && $arg1 == schema && $arg2 == old(def.Intersection.Branches)[$i + 1]
+//@   at-call "compiler.(*Visitor).VisitType" let slot := def.Intersection.Branches
+//@   ensures  callback: old(visitor.OnIntersection) != nil ==> dynreturned(old(visitor.OnIntersection), visitor, schema, def, result.0, result.1)
+//@   ensures  descended: old(visitor.OnIntersection) == nil && result.1 == nil ==> result.0 == def && ncalls("compiler.(*Visitor).VisitType") >= old(ncalls("compiler.(*Visitor).VisitType")) + old(len(def.Intersection.Branches))
+//@   loop 0:
+//@     invariant nocb: old(visitor.OnIntersection) == nil
+//@     invariant counted: ncalls("compiler.(*Visitor).VisitType") >= old(ncalls("compiler.(*Visitor).VisitType")) + $i + 1
+//@     invariant stored: $i >= 0 ==> $slot[$i] == lastres("compiler.(*Visitor).VisitType", 0)
+//
+// A struct field: without OnStructField the field comes back with its type visited and nothing else
+// changed; with it the callback owns the descent (its own contract has to say that it recursed).
+//@ func (*Visitor).VisitStructField
+//@   property C05 C06 C15
+//@   traced
+//@   requires visitor != nil
+//@   at-call "compiler.(*Visitor).VisitType" type: $arg0 == visitor && $arg1 == schema && $arg2 == field.Type
+//@   ensures  callback: old(visitor.OnStructField) != nil ==> dynreturned(old(visitor.OnStructField), visitor, schema, field, result.0, result.1)
+//@   ensures  descended: old(visitor.OnStructField) == nil && result.1 == nil ==> returned("compiler.(*Visitor).VisitType", visitor, schema, field.Type, result.0.Type, result.1) && with(result.0, "Type", field.Type) == field
+//
+//@ func (*Visitor).VisitObject
+//@   property C05 C06 C15
+//@   requires visitor != nil
+//@   at-call "compiler.(*Visitor).VisitType" type: $arg0 == visitor && $arg1 == schema && $arg2 == object.Type
+//@   ensures  callback: old(visitor.OnObject) != nil ==> dynreturned(old(visitor.OnObject), visitor, schema, object, result.0, result.1)
+//@   ensures  descended: old(visitor.OnObject) == nil && result.1 == nil ==> returned("compiler.(*Visitor).VisitType", visitor, schema, object.Type, result.0.Type, result.1) && with(result.0, "Type", object.Type) == object
 //
 //
 // C15 - schema transformations have their documented effect and touch nothing else.
@@ -442,7 +515,19 @@ package compiler
 // the field's type itself - the callback has to (C06: otherwise nested structs are never rewritten).
 // Calls to VisitType are recorded as ghost facts so that callbacks can state that they recursed.
 //@ func (*Visitor).VisitType
+//@   property C05 C06 C15
 //@   traced
+//@   requires visitor != nil
+//@   ensures  array: def.Kind == ast.KindArray ==> returned("compiler.(*Visitor).VisitArray", visitor, schema, def, result.0, result.1)
+//@   ensures  map: def.Kind == ast.KindMap ==> returned("compiler.(*Visitor).VisitMap", visitor, schema, def, result.0, result.1)
+//@   ensures  struct: def.Kind == ast.KindStruct ==> returned("compiler.(*Visitor).VisitStruct", visitor, schema, def, result.0, result.1)
+//@   ensures  disjunction: def.Kind == ast.KindDisjunction ==> returned("compiler.(*Visitor).VisitDisjunction", visitor, schema, def, result.0, result.1)
+//@   ensures  intersection: def.Kind == ast.KindIntersection ==> returned("compiler.(*Visitor).VisitIntersection", visitor, schema, def, result.0, result.1)
+//@   ensures  enum: def.Kind == ast.KindEnum ==> returned("compiler.(*Visitor).VisitEnum", visitor, schema, def, result.0, result.1)
+//@   ensures  scalar: def.Kind == ast.KindScalar ==> returned("compiler.(*Visitor).VisitScalar", visitor, schema, def, result.0, result.1)
+//@   ensures  ref: def.Kind == ast.KindRef ==> returned("compiler.(*Visitor).VisitRef", visitor, schema, def, result.0, result.1)
+//@   ensures  consantref: def.Kind == ast.KindConstantRef ==> returned("compiler.(*Visitor).VisitConsantRef", visitor, schema, def, result.0, result.1)
+//@   ensures  other: def.Kind != ast.KindArray && def.Kind != ast.KindMap && def.Kind != ast.KindStruct && def.Kind != ast.KindDisjunction && def.Kind != ast.KindIntersection && def.Kind != ast.KindEnum && def.Kind != ast.KindScalar && def.Kind != ast.KindRef && def.Kind != ast.KindConstantRef ==> result.0 == def && result.1 == nil
 //
 // add_fields: only the selected struct object changes; its existing fields are all kept, unchanged and
 // in place (a field is never overwritten); every field appended after them is one of the configured
